@@ -146,6 +146,21 @@ func c18Drive(args []string) int {
 			v2 := transcriptOf(schU, &chunkReader{data: cat(bom, in), sizes: []int{1}, failAt: -1}, 1000)
 			events = append(events, M{"ev": "same", "tr": fam, "item": ft.s.Name, "results": fpAll(v2, "full"), "desc": "utf-8 with BOM, 1-byte delivery", "input": fmt.Sprintf("%q", in)})
 			sum.Traces += 2
+			// ... also when utf-8 is declared explicitly
+			schE, errE, pE := newSchema(withEncoding(ft.s.Schema, "utf-8"))
+			if errE != nil || pE != "" {
+				fmt.Println("error: schema with explicit utf-8 rejected", ft.s.Name, errE, pE)
+				return 3
+			}
+			for _, b := range []bool{false, true} {
+				data, desc := in, "utf-8 declared explicitly, no BOM"
+				if b {
+					data, desc = cat(bom, in), "utf-8 declared explicitly, with BOM"
+				}
+				v3 := transcriptOf(schE, bytes.NewReader(data), 1000)
+				events = append(events, M{"ev": "same", "tr": fam, "item": ft.s.Name, "results": fpAll(v3, "full"), "desc": desc, "input": fmt.Sprintf("%q", in)})
+				sum.Traces++
+			}
 			sum.eval(true, M{"f": ft.s.Name, "bom": string(pl)})
 		}
 		for enc, table := range tables {
